@@ -508,6 +508,8 @@ impl<TActor: ThreadLocalActor> ThreadLocalActorRuntime<TActor> {
                     }
                 }
                 actor_cell::ActorPortMessage::Message(MuxedMessage::Message(msg)) => {
+                    #[cfg(ractor_verif)]
+                    crate::verif::emit("port.msg", myself.get_id().pid(), 0);
                     let future = Self::handle_message(myself.clone(), state, handler, msg);
                     match ports.run_with_signal(future).await {
                         Ok(Ok(())) => Ok(ActorLoopResult::ok()),
